@@ -13,3 +13,4 @@ import AmVerif.Props.C08
 import AmVerif.Props.C15
 import AmVerif.Props.C13
 import AmVerif.Props.C14
+import AmVerif.Props.C07
